@@ -119,6 +119,9 @@ const SINKS: &[Sink] = &[
     s("author-root-id-style", r#"<svg id="@" style="@" class="@"><rect wh="5"/></svg>"#, Ctx::Attr, true),
     s("author-root-xmlns", r#"<svg xmlns="@"><rect wh="5"/></svg>"#, Ctx::Attr, true),
     s("author-root-xmlns-attr", r#"<svg xmlns:q="@"><rect wh="5"/></svg>"#, Ctx::Attr, true),
+    // connectors which are written as one element and rendered as another, around child elements
+    s("connector-renamed-line-to-polyline", r##"<svg><rect id="p" wh="5"/><rect id="q" xy="20 10" wh="5"/><line start="#p" end="#q" edge-type="corner" a="@"><title>t</title></line></svg>"##, Ctx::Attr, true),
+    s("connector-renamed-polyline-to-line", r##"<svg><rect id="p" wh="5"/><rect id="q" xy="20 0" wh="5"/><polyline start="#p@c" end="#q@c" a="@"><desc>d</desc></polyline></svg>"##, Ctx::Attr, true),
     s("connector-attrs", r##"<svg><rect id="p" wh="5"/><rect id="q" xy="20 0" wh="5"/><line start="#p" end="#q" a="@" text="@"/></svg>"##, Ctx::Attr, true),
     s("surround-attrs", r##"<svg><rect id="p" wh="5"/><rect surround="#p" a="@" text="@"/></svg>"##, Ctx::Attr, true),
     s("empty-root", r#"<svg a="@"/>"#, Ctx::Attr, true),
